@@ -1375,3 +1375,43 @@ def run_configs(spec, rec, rng, ureg0, mon0, names, canon, mult):
     for ureg in regs.values():
         ureg.formatter.default_format = ""
         ureg.formatter.default_sort_func = H.sort_by_unit_name
+    run_default_equals_explicit(spec, rec, rng, pintload)
+
+
+def run_default_equals_explicit(spec, rec, rng, pintload):
+    """str(q) under formatter.default_format = F must be exactly format(q, F) of the same quantity in a
+    registry without default (metamorphic relation; F also ranges over specs with the '#' modifier).
+    Added after a seeded change (C09-2) that ignored a '#' coming from the default format."""
+    from decimal import Decimal
+    from fractions import Fraction
+    dfs = ("#~P", "#.3f~P", "#D", "#~C", "#.2f~H", "~P", ".3f~D", "#", "#~", ".4g#~P", "C", "#L")
+    for nitname, nit, mags in (("float", float, (1500.0, 2.5e-7, 3.2e7, 0.0421)),
+                               ("fraction", Fraction, (Fraction(3000), Fraction(1, 4000), Fraction(5, 2))),
+                               ("decimal", Decimal, (Decimal("1500"), Decimal("0.00025")))):
+        a = pintload.registry(non_int_type=nit)
+        b = pintload.registry(non_int_type=nit)
+        for df in dfs:
+            a.formatter.default_format = df
+            for mag in mags:
+                for un in ("meter", "second", "gram", "newton * meter", "meter / second ** 2"):
+                    rec.count("default_vs_explicit_checks")
+                    rec.case(("default=explicit", nitname, df, str(mag), un))
+                    try:
+                        want = ("ok", format(b.Quantity(mag, un), df))
+                    except Exception as e:  # noqa: BLE001
+                        want = ("raised", type(e).__name__)
+                    try:
+                        got1 = ("ok", str(a.Quantity(mag, un)))
+                    except Exception as e:  # noqa: BLE001
+                        got1 = ("raised", type(e).__name__)
+                    try:
+                        got2 = ("ok", format(a.Quantity(mag, un), ""))
+                    except Exception as e:  # noqa: BLE001
+                        got2 = ("raised", type(e).__name__)
+                    if got1 != want or got2 != want:
+                        rec.violation("default-format-differs-from-explicit-spec",
+                                      {"default_format": df, "quantity": f"{mag!r} {un}", "str": got1, "format_empty": got2,
+                                       "format_explicit": want}, fmt=family(df.replace("#", "")) if df.strip("#") else "D",
+                                      nit=nitname, clause="default-format", compact_modifier="#" in df,
+                                      default_is_only_modifiers=df.strip("#~") == "")
+        a.formatter.default_format = ""
